@@ -47,6 +47,13 @@ func init() {
 		{Pkg: v, Func: "(*verifier).processSignature", Oracle: true, OutParams: []string{"outcome"}},
 		{Pkg: "encoding/json", Func: "Unmarshal", Oracle: true, OutParams: []string{"v"}},
 		{Pkg: v, Func: "(*verifier).Verify"},
+		// verifier.VerifyBlob: with the two blob selections and SignatureAlgorithm.Hash as oracles the only thing left
+		// outside the subset is `errMsg := fmt.Sprintf(..)` bound to a local that flows into errors.New(errMsg) and a
+		// logging call (verifier/verifier.go:321): "fmt.Sprintf is only supported where its result becomes an error
+		// message"; the whitelist entry wins over an Oracle row for fmt.Sprintf, so no table work-around. REFUSED.
+		{Pkg: tp, Func: "(*BlobDocument).GetGlobalTrustPolicy", Oracle: true},
+		{Pkg: tp, Func: "(*BlobDocument).GetApplicableTrustPolicy", Oracle: true},
+		{Pkg: sig, Func: "Algorithm.Hash", Oracle: true},
 		// Refused, kept as documentation of what is outside the subset:
 		// notation.VerifyBlob / getDescriptorFunc: depend on addUserMetadataToDescriptor; notation.Verify is C10's
 		// (targets_c10.go)
